@@ -47,6 +47,9 @@ func c16List(tier string) []c16Case {
 	for i := 0; i < tierN(tier, 6, 48); i++ {
 		out = append(out, c16Case{Family: "refused-request", Index: i, GMP: []int{1, 4, 16}[i%3]})
 	}
+	for i := 0; i < tierN(tier, 8, 30); i++ {
+		out = append(out, c16Case{Family: "rpc-c07", Index: i})
+	}
 	for i := 0; i < tierN(tier, 12, 120); i++ {
 		out = append(out, c16Case{Family: "refail", Index: i, Rewrite: []string{"reattach-then-old-fails", "write-fault-while-serve-loop-busy", "read-fault-while-serve-loop-busy", "reattach-while-old-stays-open", "write-only-fault-reported-while-serve-loop-busy"}[i%5], GMP: []int{1, 4, 16}[i%3]})
 	}
@@ -70,10 +73,25 @@ func c16Run(tier string, seed int64, idx int) *core.Result {
 	switch c.Family {
 	case "envelopes":
 		c16Envelopes(tier, seed, idx, c, res)
-	case "rpc-c01", "rpc-c02":
+	case "rpc-c01", "rpc-c02", "rpc-c07":
 		var sub *core.Result
 		if c.Family == "rpc-c01" {
 			sub = c01Run(tier, seed, c.Index) // index = 2 mod 4: proxy topology
+		} else if c.Family == "rpc-c07" {
+			// cancelled streaming calls relayed by the proxy: the C07 cases with the proxy plan
+			k, at := 0, -1
+			for j, cs := range c07List(tier) {
+				if cs.Plan == "proxy" {
+					if k == c.Index {
+						at = j
+					}
+					k++
+				}
+			}
+			if at < 0 {
+				return res
+			}
+			sub = c07Run(tier, seed, at)
 		} else {
 			sub = c02RunTopo(tier, seed, c.Index, "proxy")
 		}
